@@ -118,8 +118,15 @@ func readHTTP(u *url.URL, rt http.RoundTripper) ([]byte, error) {
 	return b, nil
 }
 
+// IsDataURI reports whether s is an inline "data:" value rather than a file name.
+// URI schemes are case-insensitive (RFC 3986 section 3.1).
+func IsDataURI(s string) bool {
+	const scheme = "data:"
+	return len(s) >= len(scheme) && strings.EqualFold(s[:len(scheme)], scheme)
+}
+
 func ReadFileOrBase64(name string) ([]byte, error) {
-	if strings.HasPrefix(name, "data:") {
+	if IsDataURI(name) {
 		return readData(&url.URL{
 			Scheme: "data",
 			Opaque: name[5:],
